@@ -16,7 +16,8 @@ EXPLANATION = (
     "exactly under user_base <= va < user_base + size and an error otherwise; (M4) every successful change notifies the "
     "backend exactly once with the handler's atomic memory handle; (M5) removal is keyed by the request's guest address "
     "(and size for the memory object)."
-    ' Also: (M2) region i is mapped from file i; (M3) success value found as Ok(..) or Some(..).ok_or(..); (M4) the notification follows the replacement of the memory object; (M6) C02/D9; (M7) C20/X2 for region validators.')
+    ' Also: (M2) region i is mapped from file i; (M3) success value found as Ok(..) or Some(..).ok_or(..); (M4) the notification follows the replacement of the memory object; (M6) C02/D9; (M7) C20/X2 for region validators.'
+    ' Round 5: (M9) SET_MEM_TABLE assigns a translation table built from this message (nothing carried over); (M8, M10, M11) C14/Q3, C05/V1, C01/W5.')
 NOT_DECIDED = "Byte visibility through the mappings, vm-memory's overlap/ordering rules, mmap failures."
 
 MEM_HANDLERS = ("set_mem_table", "add_mem_region", "remove_mem_region")
@@ -33,6 +34,7 @@ def run(ctx, chk):
     chk.rule("M4", "exactly one backend notification per successful change")
     chk.rule("M5", "removal keyed by the request's guest address / size")
     run_on(fb, chk)
+    m9(fb, chk)
     # the frontend side of "each byte backed by the passed file": region i is sent with descriptor i (C02/D9)
     from vlint.report import Renamed
     from . import c02
@@ -49,6 +51,26 @@ def thorough(ctx, chk):
     fb = ctx.fb("base")
     chk.cfgs["base"] = fb.hashes
     run_on(fb, chk, tag="base/")
+
+
+def m9(fb, chk, tag=""):
+    """SET_MEM_TABLE REPLACES the translation entries: the handler assigns a table built from this message's regions to
+    `mappings`; it does not add to the previous table (entries of the replaced table would shadow the new ones)."""
+    chk.rule("M9", "SET_MEM_TABLE replaces the translation table (assignment of a table built from this message; nothing is carried over)")
+    from . import daemon as _d
+    f = _d.control_handlers(fb).get("set_mem_table")
+    if f is None:
+        chk.anchor_missing("M9", tag + "VhostUserHandler::set_mem_table")
+        return
+    m = must_of(fb, f)
+    ws = [w for w in field_writes(f) if w["field"] == "mappings"]
+    grow = [(c["name"], t["line"]) for bb, t, c in sites(f, name={"extend", "append", "push", "insert", "extend_from_slice"})
+            if m.sym.arg_terms(bb) and "self.mappings" in show(m.sym.arg_terms(bb)[0])]
+    selfref = [w for w in ws if any(x[0] == "field" and x[2] == "mappings" for x in subterms(m.sym.rvalue(w["rv"])))]
+    chk.check(bool(ws) and not grow and not selfref, "M9", tag + "set_mem_table:replaces", "mappings <- table of this message",
+              "VhostUserHandler::set_mem_table %s: translation entries of the replaced table survive and shadow the new ones"
+              % ("adds to the previous translation table (%s)" % grow[0][0] if grow else
+                 ("builds the new table from the old one" if selfref else "does not assign the translation table")), f.loc(grow[0][1] if grow else None))
 
 
 def mutation_sites(fb, f, m):
